@@ -24,7 +24,7 @@ var recSeq = ev.New("C16", "proxy-sequences",
 		"Non-trivial: at least 2 requests forwarded with pipelining window >= 2 and (a request body or a Connection-nominated field). Distinct key: methods, body kinds, length classes, statuses, end kind, window class, auth class").
 	Require("pipelined", "req-body", "req-chunked", "req-trailers", "nominated-present", "upgrade-present", "proxy-auth-present",
 		"auth-enabled", "auth-enabled-no-users", "auth-users-nil", "auth-users-empty", "auth-users-several", "bad-then-good", "host-change", "later-connect", "close-req", "close-resp", "interim", "interim-delivered", "expect-got-100",
-		"head", "resp-chunked", "resp-close-delimited", "depth>16", "3xx", "origin-truncate", "origin-close-silent", "client-abort", "never-authenticated")
+		"head", "resp-chunked", "resp-close-delimited", "depth>16", "3xx", "origin-truncate", "origin-close-silent", "client-abort", "never-authenticated", "origin-closed-idle-connection")
 
 func lenClass(n int) string {
 	switch {
@@ -371,4 +371,69 @@ func TestAuthTableBoundary(t *testing.T) {
 		}
 	}
 	recAuth.Exhaustive(true)
+}
+
+var recIdle = ev.New("C16", "origin-idle-close",
+	"bounded-exhaustive: k in {1,2,3} complete exchanges (GET/HEAD/POST mix), pipelining window {1,4}, then the client is silent for 10 virtual minutes while the origin "+
+		"closes its idle keep-alive connection after {5 s, 60 s}; afterwards the client sends {GET, POST by length, POST chunked} anyway. Same model and judge: the client must have seen "+
+		"end-of-stream before it sends anything further (and within 1 virtual second of the origin's close), the late request is never answered and never reaches an origin. "+
+		"Each case has a twin without idle phase in which every request must be forwarded and answered. Non-trivial: the idle cases").
+	Require("origin-closed-idle-connection", "twin-no-idle")
+
+// TestOriginIdleClose enumerates the "origin closes an idle keep-alive connection" scenario.
+func TestOriginIdleClose(t *testing.T) {
+	methods := []string{"GET", "HEAD", "POST"}
+	for k := 1; k <= 3; k++ {
+		for _, window := range []int{1, 4} {
+			for _, idleSec := range []int{5, 60} {
+				for late := 0; late < 3; late++ {
+					for _, idle := range []bool{true, false} {
+						p := &plan{Window: window, ClientAbort: -1, OriginIdleSec: idleSec}
+						for i := 0; i < k; i++ {
+							r := req1(methods[(i+k)%3], "/r"+itoa(i), kv{"User-Agent", " h"})
+							if r.Method == "POST" {
+								r.Body = bodySpec{Kind: bodyCL, Seed: uint64(31 + i), Len: 17}
+							}
+							p.Reqs = append(p.Reqs, r)
+							p.Resps = append(p.Resps, resp1(200, 5+i))
+						}
+						lr := req1("GET", "/late", kv{"User-Agent", " h"})
+						switch late {
+						case 1:
+							lr = req1("POST", "/late", kv{"User-Agent", " h"})
+							lr.Body = bodySpec{Kind: bodyCL, Seed: 77, Len: 5000}
+						case 2:
+							lr = req1("POST", "/late", kv{"User-Agent", " h"})
+							lr.Body = bodySpec{Kind: bodyChunked, Seed: 78, Len: 30, Chunks: []int{10, 20}}
+							lr.FrameName = "Transfer-Encoding"
+						}
+						p.Reqs = append(p.Reqs, lr)
+						p.Resps = append(p.Resps, resp1(200, 9))
+						if idle {
+							p.IdleAt = k
+						}
+						e := model(p)
+						o := execute(t, p)
+						v := judge(p, e, o)
+						if v.sig != "" {
+							t.Fatalf("SIG=C16/%s exchanges=%d window=%d origin-idle=%ds late=%s idle-phase=%v: %s\norigin received:\n%s\nclient received:\n%s",
+								v.sig, k, window, idleSec, lr.Method, idle, v.detail, clip(o.OriginRaw), clip(o.ClientRaw))
+						}
+						for _, kh := range v.known {
+							recIdle.KnownHit(kh)
+						}
+						label := "twin-no-idle"
+						if idle {
+							if !e.IdleLive {
+								t.Fatalf("harness: model did not classify the case as an idle close")
+							}
+							label = "origin-closed-idle-connection"
+						}
+						recIdle.Case(fmt.Sprintf("%d|%d|%d|%d|%v", k, window, idleSec, late, idle), idle, label)
+					}
+				}
+			}
+		}
+	}
+	recIdle.Exhaustive(true)
 }
